@@ -598,6 +598,9 @@ func (c *evalCtx) call(x *ast.CallExpr) tval {
 		return tval{BoolLit(true), tBool}
 	case "iff":
 		return tval{Ident(c.term(arg(0)), c.term(arg(1))), tBool}
+	case "letin":
+		// letin(x, e, body): body with x standing for the value e has here (also inside old(...) in body)
+		return c.bind(identArg(0), c.eval(arg(1))).eval(arg(2))
 	case "ite":
 		a, b := c.eval(arg(1)), c.eval(arg(2))
 		return tval{Ite(c.term(arg(0)), a.V.(Term), b.V.(Term)), a.T}
